@@ -602,3 +602,24 @@ pub fn long_count(rng: &mut Rng) -> usize {
     let base = *rng.pick(&[17usize, 33, 65, 65, 129, 129, 257, 257, 300, 513, 1025]);
     base + rng.below(6) as usize
 }
+
+/// A segment a–b through the origin region with coordinates of mixed sign and a point *exactly* on its line within two
+/// ulps of an end (beyond it, on it, or just inside): slopes 0, ∞, ±1, ±2, ±1/2 keep the point on the line exactly.
+/// Returns (a, b, point).
+pub fn ulp_beyond_end(rng: &mut Rng) -> (Coord<f64>, Coord<f64>, Coord<f64>) {
+    let s = 2f64.powi(rng.range(-3, 30) as i32);
+    let (i, j) = (rng.range(1, 9) as f64 * s, rng.range(1, 9) as f64 * s * if rng.chance(1, 4) { 0.1 } else { 1.0 });
+    // direction (dx, dy) with |dx|, |dy| powers of two or zero: y = r·x is exact for every f64 x
+    let (rx, ry) = *rng.pick(&[(1.0, 0.0), (0.0, 1.0), (1.0, 1.0), (1.0, -1.0), (1.0, 2.0), (2.0, 1.0), (1.0, -2.0), (-2.0, 1.0)]);
+    let at = |t: f64| Coord { x: rx * t, y: ry * t };
+    let (a, b) = (at(-i), at(j));
+    let step = |t: f64, k: i64| -> f64 {
+        let mut bits = t.to_bits() as i64;
+        bits += if t >= 0.0 { k } else { -k };
+        f64::from_bits(bits as u64)
+    };
+    let k = *rng.pick(&[-2i64, -1, 0, 1, 1, 1, 2]);
+    let t = if rng.chance(1, 2) { step(j, k) } else { -step(i, k) };
+    let (a, b) = if rng.chance(1, 2) { (a, b) } else { (b, a) };
+    (a, b, at(t))
+}
